@@ -12,6 +12,7 @@ def spec(tier):
         XH("R2.trunc", F, "recv_trunc", T, what="stream cut at any offset inside a frame: terminates with EOFError/protocol error within a bounded number of reads"),
         XH("T.transport", F, "transport", T, what="real ReadWriter over BytesIO on <=3 tokens from 1/2/3/4-byte characters + LF"),
         XH("T2.transport_big", F, "transport_big", T, what="bodies of 2^k+delta bytes (k=10..16) with a 2/3/4-byte character straddling the power-of-two offset, through the real ReadWriter/BytesIO and read_message"),
+        XH("T3.main_wiring", F, "main_wiring", T, what="the real fortls.main() wiring: stdin replaced by a buffered reader over a raw stream delivering <=k bytes per call (k=1..7); the connection main() builds must decode two frames with a multi-byte body exactly (i.e. main() must hand ReadWriter a stream with the exact-n read contract)"),
         *parts("U.uri", F, "uri", 3 if q else 15, T, what="path_from_uri(path_to_uri(p)) == p for p from <=4 tokens of a special-character table (space % # ? + & = ~ non-ASCII, literal %41)"),
     ]
     return dict(
